@@ -1960,6 +1960,13 @@ func (a *Agent) TaskPrepare(Command int, Info any, Message *map[string]string, C
 
 			})
 
+			/* bind first: a proxy that can't listen must not be listed, and one that is listed
+			 * must already be closable */
+			if err = Socks.Listen(); err != nil {
+				Socks.Failed = true
+				return nil, fmt.Errorf("Failed to start socks proxy: %v", err)
+			}
+
 			/* TODO: append the socket to a list/array now */
 			a.SocksSvrMtx.Lock()
 
@@ -1971,7 +1978,7 @@ func (a *Agent) TaskPrepare(Command int, Info any, Message *map[string]string, C
 			a.SocksSvrMtx.Unlock()
 
 			go func() {
-				err := Socks.Start()
+				err := Socks.Serve()
 				if err != nil {
 					Socks.Failed = true
 					if Message != nil {
@@ -5927,7 +5934,7 @@ func (a *Agent) TaskDispatch(RequestID uint32, CommandID uint32, Parser *parser.
 							} else if Type == SOCKET_TYPE_REVERSE_PROXY {
 
 								/* check if there is a socket with that socks proxy id */
-								if Socket := a.SocksClientGet(SocktID); Socket != nil {
+								if Socket := a.SocksClientGet(SocktID); Socket != nil && Socket.Conn != nil {
 
 									/* write the data to socks proxy */
 									_, err := Socket.Conn.Write(Data)
